@@ -459,9 +459,40 @@ def _r3_cell(chk, F, iterations, month, full=False):
                 if its:
                     rng_ok = rng_ok and ((fwd and its[0][1].lin == Lin.const(1900) and its[0][2].lin == y) or
                                          (bwd and its[0][1].lin == y and its[0][2].lin == Lin.const(1900)))
+                T = D.total(ep.fs[0])
+                if not its and not ends:
+                    # a loop-free constructor (closed-form leap-day count): no induction to run - the count is compared directly with
+                    # the exact day number 365 (y-1900) + L(y) - L(1900) + cumul + day - 1, L(y) = floor((y-1)/4) - floor((y-1)/100) +
+                    # floor((y-1)/400), written over the Euclidean quotient atoms of y-1 (the same atoms the code's div_euclid produces)
+                    if iterations != 0:
+                        continue  # one judgement per path is enough (the 0- and 1-iteration runs coincide)
+                    from ..models import _euclid
+                    stc = st.clone()
+                    ym1 = Int(y - 1, args[0].tid)
+                    qs = {}
+                    for k_ in (4, 100, 400):
+                        qs[k_] = _euclid(eng, stc, ym1, Int(Lin.const(k_), args[0].tid), "div")[0][1].lin
+                    L1900 = 1899 // 4 - 1899 // 100 + 1899 // 400
+                    days = (y - 1900).scale(365) + qs[4] - qs[100] + qs[400] - L1900 + (d - 1)
+                    base = days.scale(D_NS) + h.scale(3600 * oracle.NS) + mi.scale(60 * oracle.NS) + s.scale(oracle.NS) + ns - G
+                    for ly_name, ly_cond, cum in (("leap", leap_y, 1), ("common", nleap_y, 0)):
+                        cumd = sum(MLEN[:month - 1]) + (1 if (cum and month > 2) else 0)
+                        for sec60, scond, corr in (("s<60", c_lin("le", s - 59), 0), ("s=60", c_lin("eq", s - 60), -oracle.NS)):
+                            cond = c_and(ly_cond, scond)
+                            for alt in dnf(cond):
+                                if not D.feasible_local(stc, alt):
+                                    continue
+                                total_ok += 1
+                                want = base + cumd * D_NS + corr
+                                st3 = stc.clone()
+                                D.close(st3, [T, want], alt)
+                                ok = D.implies_eq(st3, T, want, alt)
+                                chk.ob(rule, "Epoch::maybe_from_gregorian", "count==exact-day-number+time-offset[closed-form,%s,%s]" % (ly_name, sec60), ok,
+                                       "linear form over the Euclidean quotients of y-1 vs oracle (month %d)" % month,
+                                       detail=None if ok else {"result": repr(T)[:300], "expected": repr(want)[:300], "month": month, "path": describe_path(eng, st)})
+                    continue
                 chk.ob(rule, "Epoch::maybe_from_gregorian", "leap-day-loop-range[%s,%d-iter]" % ("1900..y" if fwd else "y..1900", iterations), rng_ok,
                        "loop-shape: induction range", detail=None if rng_ok else {"ends": repr(ends)[:200]})
-                T = D.total(ep.fs[0])
                 st2 = st
                 common = (y - 1900).scale(365 * D_NS) + (d - 1).scale(D_NS) + h.scale(3600 * oracle.NS) + \
                     mi.scale(60 * oracle.NS) + s.scale(oracle.NS) + ns - G
